@@ -37,7 +37,23 @@ CFG = dict(
                  "L1 reproduces the table calls of session_loop's tail and run()'s handling of never-established connections; the variant in use is the one "
                  "that behaves like the real code (L2) on calibration probes, else L1 is inconclusive",
                  "hold-timer expiry is exercised in L1 only; one peer, two families (IPv4/IPv6 unicast), no Add-Path"],
-    floor=dict(evaluations=1, nontrivial=2, counters={}),
+    # sized at about 1/5 of what the quick tier observes on the unchanged tree (seeds 1, 2)
+    floor=dict(evaluations=100000, nontrivial=4000,
+               counters={"l1x:complete-shards": 8, "l2:histories": 1200, "l2:steps-judged": 10000,
+                         "l2:nontrivial-histories": 400, "l1:nontrivial-histories": 4000,
+                         "I1:judged": 16000, "I1:by-restart-timer": 7000, "I1:by-llgr-timer": 2500, "I1:by-awaited-eor": 4000,
+                         "I2:judged": 5000, "I2:family-kept-stale": 8000, "I2:other-family-judged": 1500,
+                         "I3:judged-with-routes": 2500,
+                         "I4:restart-timer:judged": 1000, "I4:llgr-timer:judged": 300, "I4:eor:judged": 600,
+                         "I5:judged": 80000, "I6:judged": 800, "I7:judged": 3000,
+                         "I7:no-llgr-route-dropped-at-llgr-start": 1200,
+                         "op:reconnect-fail-before-open": 800, "op:reconnect-fail-after-open": 1400,
+                         "op:restart-timer": 1000, "op:llgr-timer": 300, "op:force-down": 1200, "op:eor": 20000,
+                         "drop:tcp-close": 5000, "drop:hard-reset": 1000, "drop:admin-shutdown": 1400,
+                         "drop:non-cease-error": 1200, "drop:non-cease-error-nbit": 240,
+                         "drop:notification-no-nbit": 1600, "drop:cease-nbit": 800,
+                         "established:after-retention:gr-renegotiated": 2400, "established:after-retention:no-gr": 2000,
+                         "obs:stale-paths-seen": 12000, "obs:llgr-stale-paths-seen": 3000}),
     quick=[e2("l1x", _T, 8, 120, part="l1x", depth=5, nshards=8),
            e2("l1r", _T, 2, 60, part="l1r", count=8000),
            e2("l2", _T, 4, 60, part="l2", count=1500)],
